@@ -2,19 +2,29 @@
 inequalities, signed variants, positive homogeneity, accessor = plain functions row by row.
 
 A case is a small batch of stress tensors (rows of the six Voigt components) together with one
-orthogonal matrix Q, one positive scale factor and an index layout.  From it the harness derives,
-deterministically, the rotated rows (Q S Q^T computed with numpy) and the scaled rows.
+orthogonal matrix Q, one positive scale factor, an index layout and a column layout.  From it the harness
+derives, deterministically, the rotated rows (Q S Q^T computed with numpy) and the scaled rows.
+A `big` case is a batch of 257 - 300000 rows reproducible from a seed (one row per FE node is the real use).
 
 Correspondence (K): for every base / rotated / scaled tensor the real functions are called on three
-paths - scalar arguments, column (ndarray) arguments, the DataFrame accessor - and every result is
-compared bit for bit (NaN = NaN, -0.0 = 0.0) with the compiled Lean model, which receives the six
-components and the eigenvalue triple the real `principals` returned on the same path.
+paths - scalar arguments, column (ndarray) arguments, the DataFrame accessor - and in further batch layouts
+and input forms, and every result is compared bit for bit (NaN = NaN, -0.0 = 0.0) with the compiled Lean
+model, which receives the six components and the eigenvalue triple the real `principals` returned on the
+same path.  Of a big case ~60-180 sampled rows (ends, block boundaries, random) go through K.
 
 Oracle: the property's own relations on the real code, with eigenvalues obtained independently
-(the constructing eigenvalues of the case, or numpy's general non-symmetric solver `eigvals`)."""
+(the constructing eigenvalues of the case, or numpy's general non-symmetric solver `eigvals`); on big cases
+vectorised over ALL rows.  What the oracle does not judge (and why) is stated in ASSUMPTIONS: the sign across
+rotation / scaling within SIGN_WINDOW of the tie set of the indicator, frames lacking a Voigt column, names of
+the returned pandas objects, magnitudes outside 1e-140 .. 1e140.
+
+Finding classes that can be open findings go through `Prop.known` (mises-int-overflow: assigned only when the
+value equals the harness's own int64 wrap-around evaluation of the formula)."""
 import itertools
 import json
 import math
+import random
+from fractions import Fraction
 
 import numpy as np
 import pandas as pd
@@ -28,6 +38,13 @@ COLS = ["S11", "S22", "S33", "S12", "S13", "S23"]
 FUNCS = ["mises", "signed_mises_trace", "signed_mises_abs_max_principal", "tresca", "signed_tresca_trace",
          "signed_tresca_abs_max_principal", "abs_max_principal", "max_principal", "min_principal"]
 TOL = 1e-9          # relative to the magnitude of the tensor
+# A sign indicator (trace, resp. w_max + w_min) whose magnitude is at most SIGN_WINDOW x max|s_ij| is "within rounding of
+# the tie set": ~4500 ulp, above the rounding of a 3x3 symmetric eigen-solver and of the float rotation Q S Q^T, far below
+# any tolerance-based tie rule.  Inside the window the SIGN is not compared across rotation / scaling (theorems
+# signTrace_determined_iff / signAbsMax_determined_iff / signed*_jump_at_tie: it is not determined there); outside it is.
+SIGN_WINDOW = 1e-12
+EPS = 2.220446049250313e-16
+F32 = 2e-5          # tolerance (x magnitude) for frames that hold float32 columns
 _E = None
 
 
@@ -78,7 +95,11 @@ EXACT_Q = [
 ]
 
 KINDS = ["random", "uniaxial", "pure_shear", "hydrostatic", "near_hydrostatic", "repeated", "zero", "plane",
-         "integer", "deviatoric", "tie_absmax", "near_tie_absmax", "compressive", "magnitude", "tiny"]
+         "integer", "deviatoric", "tie_absmax", "near_tie_absmax", "compressive", "magnitude", "tiny",
+         "close_tie_absmax", "near_zero_trace", "extreme_magnitude", "big_integer"]
+# float evaluation of the formulas is meaningful while squares neither overflow nor underflow: max|s_ij| in this window
+# (ASSUMPTIONS); the generator stays inside it, scaled tensors included
+MAG_LO, MAG_HI = 1e-140, 1e140
 
 
 def gen_row(rng, kind):
@@ -141,6 +162,30 @@ def gen_row(rng, kind):
     if kind == "magnitude":
         f = 10.0 ** rng.randint(-6, 8)
         return [f * u(1.0) for _ in range(6)], None
+    if kind == "close_tie_absmax":  # |w_min| and |w_max| differ by a relative gap of 1e-11 .. 1e-8: outside SIGN_WINDOW, inside
+        a = abs(u()) + 0.5          # every tolerance a tie rule with `isclose` would use -> the sign is still determined
+        d = 10.0 ** rng.uniform(-11, -8)
+        lam = sorted(rng.choice([[-a * (1 + d), u(0.4), a], [-a, u(0.4), a * (1 + d)]]))
+        if rng.random() < 0.3:      # axis-aligned: the eigenvalues are the diagonal entries themselves
+            perm = rng.sample(range(3), 3)
+            return [lam[perm[0]], lam[perm[1]], lam[perm[2]], 0.0, 0.0, 0.0], lam
+        q = np.array(rand_orth(rng)).reshape(3, 3)
+        return voigt(q @ np.diag(lam) @ q.T), lam
+    if kind == "near_zero_trace":   # |trace| = 1e-11 .. 1e-6 of the magnitude: the sign of the trace is still determined
+        a, b = float(rng.randint(-8, 8)), float(rng.randint(-8, 8))
+        t = rng.choice([-1.0, 1.0]) * 10.0 ** rng.uniform(-11, -6) * 8.0
+        return [a + t, b, -(a + b), u(3.0), u(3.0), u(3.0)], None
+    if kind == "extreme_magnitude":  # far from 1, still inside [MAG_LO, MAG_HI] after the scale factor
+        f = 10.0 ** rng.choice([rng.randint(-125, -20), rng.randint(20, 125)])
+        r = [f * u(1.0) for _ in range(6)]
+        r[rng.randrange(6)] = f * rng.choice([-1.0, 1.0]) * rng.uniform(0.5, 1.0)
+        return r, None
+    if kind == "big_integer":       # integer-valued components of 1e6 .. 4e9 (stresses in Pa written as integers)
+        m = int(10.0 ** rng.uniform(6.0, 9.6))
+        r = [float(rng.randint(-m, m)) for _ in range(6)]
+        if rng.random() < 0.3:
+            r = [r[0], 0.0, 0.0, 0.0, 0.0, 0.0] if rng.random() < 0.5 else [0.0, 0.0, 0.0, r[3], 0.0, 0.0]
+        return r, None
     raise ValueError(kind)
 
 
@@ -174,6 +219,8 @@ def make_index(kind, n):
         return pd.Index([f"n{i}" for i in range(n)])
     if kind == "multi":
         return pd.MultiIndex.from_tuples([(i // 2, i % 2) for i in range(n)], names=["element_id", "node_id"])
+    if kind == "duplicate":     # repeated labels (several results per node): rows are identified by position
+        return pd.Index([i // 2 for i in range(n)])
     raise ValueError(kind)
 
 
@@ -208,42 +255,103 @@ def gen_colorder(rng):
     return order
 
 
-def frame(rows, index_kind, colorder=None, extra=False):
-    """DataFrame of the tensors; `colorder` = column names in frame order (Voigt columns and extra columns)"""
+def frame(rows, index_kind, colorder=None, extra=False, dtype=None):
+    """DataFrame of the tensors; `colorder` = column names in frame order (Voigt columns and extra columns);
+    `dtype` = dtype of the six Voigt columns (default float64)"""
     if colorder is None:
         colorder = CANONICAL if extra else COLS
+    rows = np.asarray(rows, dtype=float).reshape(-1, 6)
     data = {}
     for c in colorder:
-        data[c] = [r[COLS.index(c)] for r in rows] if c in COLS else [EXTRA_VALUES[c]] * len(rows)
+        if c in COLS:
+            col = rows[:, COLS.index(c)].copy()
+            data[c] = col if dtype is None else col.astype(dtype)
+        else:
+            data[c] = [EXTRA_VALUES[c]] * len(rows)
     return pd.DataFrame(data, index=make_index(index_kind, len(rows)), columns=list(colorder))
 
 
-def accessor_values(df):
-    """All accessor methods on the frame `df` -> (w per row, values per row, problems with index/name)"""
+PRINCIPAL_NAMES = ["min_principal", "med_principal", "max_principal"]
+
+
+def accessor_arrays(df, notes=None):
+    """All accessor methods on the frame `df` -> (w (n,3), values (n,9), problems).  A problem = the result cannot be
+    related to the rows of the frame (length / index differ).  Names of the returned Series / columns are not part of the
+    property: a deviation goes to `notes` (counted in the evidence), never to the verdict."""
     acc = df.equistress
     problems = []
+    n = len(df)
     pr = acc.principals()
+    if not hasattr(pr, "index") or len(pr) != n:
+        raise ValueError(f"principals() returned {type(pr).__name__} of length {len(pr) if hasattr(pr, '__len__') else '?'} for a frame of {n} rows")
     if not pr.index.equals(df.index):
         problems.append("principals(): index differs from the frame's index")
-    if list(pr.columns) != ["min_principal", "med_principal", "max_principal"]:
-        problems.append(f"principals(): columns {list(pr.columns)}")
-    w = pr.to_numpy(dtype=float)
-    vals = []
-    for f in FUNCS:
+    if isinstance(pr, pd.DataFrame) and all(c in pr.columns for c in PRINCIPAL_NAMES):
+        if list(pr.columns) != PRINCIPAL_NAMES and notes is not None:
+            notes["principals_column_order"] = notes.get("principals_column_order", 0) + 1
+        w = pr[PRINCIPAL_NAMES].to_numpy(dtype=float)
+    else:                                   # other names: take the three columns in the order given
+        if notes is not None:
+            notes["principals_column_names"] = notes.get("principals_column_names", 0) + 1
+        w = np.asarray(pr, dtype=float)
+    if w.shape != (n, 3):
+        raise ValueError(f"principals() has shape {w.shape} for a frame of {n} rows")
+    vals = np.empty((n, len(FUNCS)))
+    for k, f in enumerate(FUNCS):
         s = getattr(acc, f)()
-        if not isinstance(s, pd.Series) or len(s) != len(df):
-            problems.append(f"{f}(): not a Series of the frame's length")
+        if not hasattr(s, "index") or len(s) != n:
+            raise ValueError(f"{f}() returned {type(s).__name__} of length {len(s) if hasattr(s, '__len__') else '?'} for a frame of {n} rows")
         if not s.index.equals(df.index):
             problems.append(f"{f}(): index differs from the frame's index")
-        if s.name != f:
-            problems.append(f"{f}(): name {s.name!r}")
-        vals.append(s.to_numpy(dtype=float))
-    return [[float(x) for x in w[i]] for i in range(len(df))], \
-        [[float(v[i]) for v in vals] for i in range(len(df))], problems
+        if getattr(s, "name", f) != f and notes is not None:
+            notes["series_name"] = notes.get("series_name", 0) + 1
+        vals[:, k] = np.asarray(s, dtype=float).reshape(n)
+    return w, vals, problems
 
 
-def call_accessor(rows, index_kind, colorder=None):
-    return accessor_values(frame(rows, index_kind, colorder or CANONICAL))
+def accessor_values(df, notes=None):
+    w, vals, problems = accessor_arrays(df, notes)
+    return [[float(x) for x in w[i]] for i in range(len(df))], [[float(x) for x in vals[i]] for i in range(len(df))], problems
+
+
+def call_accessor(rows, index_kind, colorder=None, notes=None):
+    return accessor_values(frame(rows, index_kind, colorder or CANONICAL), notes)
+
+
+def _rowwise(w, vals, n):
+    """results of a call with n-row arguments of any layout -> per-row lists; the shapes must hold n rows"""
+    w = np.asarray(w, dtype=float)
+    if w.size != 3 * n:
+        raise ValueError(f"principals has shape {w.shape} for {n} rows")
+    w = w.reshape(n, 3)
+    out = []
+    for v in vals:
+        v = np.asarray(v, dtype=float)
+        if v.size != n:
+            raise ValueError(f"result has shape {v.shape} for {n} rows")
+        out.append(v.reshape(n))
+    return [[float(x) for x in w[i]] for i in range(n)], [[float(v[i]) for v in out] for i in range(n)]
+
+
+def call_with(cols, n):
+    E = eqs()
+    return _rowwise(E.principals(*cols), [getattr(E, f)(*cols) for f in FUNCS], n)
+
+
+def call_series(rows, index_kind):
+    """plain functions with pandas Series arguments, the usual call `mises(df.S11, df.S22, ...)`"""
+    df = frame(rows, index_kind, COLS)
+    return call_with([df[c] for c in COLS], len(rows))
+
+
+def call_column_vectors(rows):
+    """plain functions with (n, 1) arrays (column vectors)"""
+    return call_with([np.array([[r[i]] for r in rows], dtype=float) for i in range(6)], len(rows))
+
+
+def call_int_columns(rows):
+    """plain functions with int64 arrays (the rows are integer valued)"""
+    return call_with([np.array([int(r[i]) for r in rows], dtype=np.int64) for i in range(6)], len(rows))
 
 
 def call_lists(rows):
@@ -291,6 +399,76 @@ def principal_mises(l):
     return math.sqrt(0.5 * ((l[0] - l[1]) ** 2 + (l[1] - l[2]) ** 2 + (l[2] - l[0]) ** 2))
 
 
+def trace_sign(row):
+    """-> (s, sure): s = +1.0 / -1.0 = sign of the floating-point sum s11 + s22 + s33 (+1 at 0), the documented indicator;
+    sure = False when the exact (rational) sum of the three doubles has another sign (or is zero / non-zero differently):
+    then rounding of the sum decided and either sign is accepted."""
+    tr = row[0] + row[1] + row[2]
+    s = 1.0 if tr >= 0 else -1.0
+    if tr != 0 and abs(tr) > 8 * EPS * max(abs(row[0]), abs(row[1]), abs(row[2])):
+        return s, True
+    ex = Fraction(row[0]) + Fraction(row[1]) + Fraction(row[2])
+    return s, (ex > 0) == (tr > 0) and (ex < 0) == (tr < 0)
+
+
+def is_integral(row, bound=2.0 ** 53):
+    return all(x == int(x) and abs(x) < bound for x in row)
+
+
+def int64_mises(row):
+    """`mises` as the code evaluates it when the components arrive as int64 (python ints / integer arrays): differences,
+    squares and sums wrap around modulo 2**64.  -> (value, wrapped?)"""
+    a, b, c, d, e, f = (int(x) for x in row)
+    wrapped = [False]
+
+    def w(x):
+        y = (x + 2 ** 63) % 2 ** 64 - 2 ** 63
+        if y != x:
+            wrapped[0] = True
+        return y
+    sq = lambda x: w(x * x)
+    p = w(w(sq(w(a - b)) + sq(w(b - c))) + sq(w(c - a)))
+    q = w(3 * w(w(sq(d) + sq(e)) + sq(f)))
+    r = 0.5 * float(p) + float(q)
+    return (math.sqrt(r) if r >= 0 else math.nan), wrapped[0]
+
+
+# ------------------------------------------------------------------ large batches (vectorised)
+BIG_KINDS = [k for k in KINDS if k not in ("extreme_magnitude", "big_integer")]
+
+
+def big_rows(seed, n):
+    """n tensors, reproducible from the seed: mostly random, every ~7th one of the special kinds"""
+    r = random.Random(seed)
+    rows = []
+    for _ in range(n):
+        if r.random() < 0.85:
+            rows.append([r.uniform(-10.0, 10.0) for _ in range(6)])
+        else:
+            rows.append(gen_row(r, r.choice(BIG_KINDS))[0])
+    return np.array(rows, dtype=float)
+
+
+def mats(a):
+    m = np.empty((len(a), 3, 3))
+    m[:, 0, 0], m[:, 1, 1], m[:, 2, 2] = a[:, 0], a[:, 1], a[:, 2]
+    m[:, 0, 1] = m[:, 1, 0] = a[:, 3]
+    m[:, 0, 2] = m[:, 2, 0] = a[:, 4]
+    m[:, 1, 2] = m[:, 2, 1] = a[:, 5]
+    return m
+
+
+def rotate_all(a, q):
+    q = np.array(q, dtype=float).reshape(3, 3)
+    m = np.einsum("ij,njk,lk->nil", q, mats(a), q)
+    return np.stack([m[:, 0, 0], m[:, 1, 1], m[:, 2, 2], 0.5 * (m[:, 0, 1] + m[:, 1, 0]),
+                     0.5 * (m[:, 0, 2] + m[:, 2, 0]), 0.5 * (m[:, 1, 2] + m[:, 2, 1])], axis=1)
+
+
+def vsame(a, b):
+    return (a == b) | (np.isnan(a) & np.isnan(b))
+
+
 class C17(Prop):
     ID = "C17"
     SOURCES = SOURCES
@@ -304,18 +482,31 @@ class C17(Prop):
         "signTrace_def", "signAbsMax_def",
         "signedMisesTrace_def", "signedTrescaTrace_def", "signedMisesAbsMax_def", "signedTrescaAbsMax_def",
         "signed_zero_indicator",
+        # the tie set of the sign indicators: where the sign is (not) determined
+        "signTrace_stable", "signAbsMax_stable", "hydroShift_invariants", "signedTrace_jump_at_tie",
+        "signedAbsMax_jump_at_tie", "signTrace_determined_iff", "signAbsMax_determined_iff",
         "mises_smul", "eigTriple_smul", "principal_functions_smul", "signed_functions_smul",
         "equistress_positively_homogeneous",
         "equistress_rotation_invariant", "accessor_rowwise"]] + [
         "PylifeVerif.Bridge.mises_eq"]      # generated (translated) mises = hand model
-    PARTIAL = {}
-    RULE = ("case = (1-6 stress tensors of 15 kinds incl. uniaxial, pure shear, hydrostatic, near-hydrostatic, repeated "
-            "eigenvalues, zero, zero trace, |w_min| = |w_max|; one orthogonal Q (exact or random, proper or reflection); "
-            "one positive scale factor; index layout; column layout of the frame = the six Voigt columns "
+    PARTIAL = {
+        "PylifeVerif.C17.accessor_rowwise":
+            "says only that the MODEL of the accessor is a row-wise map (List.map restated); that the pandas accessor is that "
+            "map - the six Voigt columns looked up by name, rows kept in order, index kept - is glue: tested (correspondence "
+            "and oracle over column permutations, extra columns, 6 index kinds, 300 - 70000 row frames), not proved",
+    }
+    RULE = ("case = (1-6 stress tensors of 19 kinds incl. uniaxial, pure shear, hydrostatic, near-hydrostatic, repeated "
+            "eigenvalues, zero, zero trace, |w_min| = |w_max|, |w_min| ~ |w_max| (relative gap 1e-11 .. 1e-3), trace ~ 0, "
+            "magnitudes 1e-125 .. 1e125, integer valued up to 4e9; one orthogonal Q (exact or random, proper or reflection); "
+            "one positive scale factor; index layout (6 kinds incl. duplicate labels); column layout of the frame = the six Voigt columns "
             "in canonical / permuted order with 0-3 other columns anywhere); every base / rotated / scaled tensor is evaluated on the scalar, "
-            "column and accessor path and in further batch layouts (alone as a column of length 1, columns of length 2 and 3, "
-            "next to 1-4 all-zero rows, as a one-row frame df.iloc[[i]]) and all 9 function values are compared bit for bit "
-            "with the Lean model fed with the eigenvalues `principals` returned; non-trivial = at least one non-zero tensor; distinct by case")
+            "column and accessor path and in further batch layouts and input forms (alone as a column of length 1, columns of length 2 and 3, "
+            "next to 1-4 all-zero rows, as a one-row frame df.iloc[[i]], (n,1) arrays, pandas Series arguments, python ints, int64 columns, "
+            "int64 / float32 frames) and all 9 function values are compared bit for bit "
+            "with the Lean model fed with the eigenvalues `principals` returned; plus per run large batches of 300 - 70000 "
+            "(thorough: - 300000) rows reproducible from a seed: column and accessor path on all rows (vectorised relations, "
+            "independent eigenvalues), ~60 sampled rows incl. block boundaries and the last rows through the scalar path and "
+            "the model; non-trivial = at least one non-zero tensor; distinct by case")
     ASSUMPTIONS = [
         "numpy.linalg.eigvalsh is modelled by its contract (IsEigTriple: ascending roots of the characteristic polynomial, "
         "proved to exist, to be unique, rotation invariant and to scale with the tensor); the eigenvalue based model "
@@ -323,6 +514,29 @@ class C17(Prop):
         "independently obtained eigenvalues to 1e-9 x tensor magnitude",
         "theorems are over the reals; the floating-point evaluation of the same expressions is tied by bit-exact "
         "correspondence (only + - x / sqrt, abs, comparisons are involved) and the oracle's tolerance 1e-9 x magnitude",
+        "SIGN ACROSS ROTATION / SCALING ON THE TIE SET IS OUTSIDE THE FLOATING-POINT CLAIM: over the reals every function, the "
+        "signed variants and abs_max_principal included, is invariant on every tensor, pure shear and zero-trace tensors "
+        "included (equistress_rotation_invariant).  The signed variants jump by twice their magnitude where their indicator "
+        "(trace, resp. w_max + w_min) is zero, and the rotated tensor Q S Q^T handed to the code carries rounding, i.e. is a "
+        "neighbour of the exact rotation: theorems signTrace_determined_iff / signAbsMax_determined_iff (the sign is the same "
+        "on all neighbours iff the indicator is non-zero), signTrace_stable / signAbsMax_stable (margin 3 delta resp. 2 delta) "
+        "and signedTrace_jump_at_tie / signedAbsMax_jump_at_tie (an arbitrarily small hydrostatic pressure flips the sign at "
+        "unchanged Mises / Tresca) delimit it.  Observed on the unchanged code: signed_tresca_abs_max_principal(0,0,0,5,0,0) = "
+        "+10, but -10 in ~40 % of randomly rotated frames.  No evaluation order removes this (a tolerance-based tie rule only moves "
+        "the jump), so it is not recorded as a defect.  The oracle therefore compares the sign of a signed variant / of "
+        "abs_max_principal between a tensor and its rotated / scaled image only if |indicator| > 1e-12 x max|s_ij| (~4500 ulp); "
+        "inside that window magnitudes are compared and the comparison is counted (distribution.sign_comparisons).  "
+        "On each single tensor the documented sign is always checked: sign of the floating-point sum s11+s22+s33 (either sign "
+        "only if the exact sum of the three doubles disagrees with the rounded one), + for an exactly zero indicator",
+        "magnitude window: in double precision the statements are claimed for 1e-140 <= max|s_ij| <= 1e140 (the generator covers "
+        "1e-134 .. 1e129); outside, the squares in `mises` overflow / underflow (mises(1e160,0,0,0,0,0) = inf, mises(1e-170,..) = 0) "
+        "while Tresca stays finite, so homogeneity and Mises <= Tresca fail there - stated, not checked",
+        "input forms: python floats / ints, lists, 1-D and (n,1) ndarrays, pandas Series, frames with float64 / int64 / float32 "
+        "Voigt columns.  2-D component arrays (n,m) with m > 1 are outside the quantifier (`scalar or column input`): there "
+        "`principals` returns the batch axes transposed, (m,n,3) - observed, not judged.  float32 frames are evaluated by numpy in "
+        "single precision: compared with 2e-5 x magnitude, for 1e-12 <= max|s_ij| <= 1e12 only",
+        "a frame that lacks one of the six Voigt columns is not a stress tensor: whether the accessor refuses it is not part of "
+        "the property (counted in distribution.reduced_frame, no verdict); names of returned Series / columns likewise (distribution.notes)",
         "model `mises` is the repaired sum-of-squares formula (tools/fixes/C17-mises-sum-of-squares.diff); over the reals "
         "it equals the expanded formula of the unrepaired code (theorem misesExpanded_eq_mises)",
         "pandas accessor registration / DataFrame column access are glue, checked by K and the oracle only",
@@ -354,8 +568,11 @@ class C17(Prop):
         self.exhaustive = False
         self._cache = {}
         self.stats = {"cases": 0, "tensors": 0, "by_kind": {}, "q_kind": {}, "index_kind": {}, "factor_log10": {},
-                      "neg_trace": 0, "zero_trace": 0, "neg_absmax": 0, "zero_absmax_indicator": 0,
-                      "magnitude_log10": {}, "missing_column_checks": 0}
+                      "neg_trace": 0, "zero_trace": 0, "neg_absmax": 0, "absmax_indicator_in_sign_window": 0,
+                      "trace_sign_decided_by_rounding": 0,
+                      "sign_comparisons": {"compared": 0, "magnitude_only_trace": 0, "magnitude_only_abs_max": 0},
+                      "magnitude_log10": {}, "reduced_frame": {}, "notes": {}, "big_batches": {}, "big_rows": 0,
+                      "max_batch_rows": 0, "input_forms": {}}
 
     # -------------------------------------------------------------- generation
     def generate(self, rng, tier):
@@ -365,6 +582,15 @@ class C17(Prop):
             for q in EXACT_Q:
                 row, lam = gen_row(rng, kind)
                 yield self._case(rng, [row], [lam], [kind], [float(x) for x in q], "exact", frames=True)
+        # large batches: one row per FE node is the real use; a size dependent path (chunking, a threshold) shows only here
+        sizes = [(300, True), (1000, True), (5000, True), (70000, False)]
+        if tier != "quick":
+            sizes += [(257, True), (2048, True), (20000, True), (300000, False)]
+        for n, derived in sizes:
+            q, qk = rand_orth(rng), "random"
+            c = self._case(rng, [], [], ["big"], q, qk, frames=False)
+            c["big"] = {"n": n, "seed": rng.randrange(1 << 30), "derived": derived}
+            yield c
         # enumerated scope: every tensor with components in {-1, 0, 1} (729 tensors; many exact ties of the
         # sign indicators and repeated eigenvalues), in batches of 9 rows, with the exact rotations
         small = [[float(x) for x in t] for t in itertools.product([-1, 0, 1], repeat=6)]
@@ -374,8 +600,8 @@ class C17(Prop):
             for q in (qs if qs is not None else [EXACT_Q[(b // 9) % len(EXACT_Q)]]):
                 yield self._case(rng, rows, [None] * len(rows), ["enumerated"] * len(rows), [float(x) for x in q], "exact",
                                  frames=False)
-        self.stats["enumerated_scope"] = ("all 729 tensors with components in {-1,0,1} x " +
-                                          ("one" if qs is None else "all 6") + " exact orthogonal matrices")
+        self.stats["exhaustive_scope_small_tensors"] = ("all 729 tensors with components in {-1,0,1} x " +
+                                                        ("one" if qs is None else "all 6") + " exact orthogonal matrices")
         for _ in range(n_cases):
             n = rng.choice([1, 1, 2, 3, 6])
             kinds = [rng.choice(KINDS) for _ in range(n)]
@@ -392,7 +618,7 @@ class C17(Prop):
 
     def _case(self, rng, rows, lams, kinds, q, qk, frames=None):
         factor = rng.choice([2.0, 0.5, 3.7, 1e-3, 1e4, 1e-9, rng.uniform(0.1, 10.0)])
-        idx = rng.choice(["range", "reversed", "offset", "string", "multi"])
+        idx = rng.choice(["range", "reversed", "offset", "string", "multi", "duplicate"])
         return {"rows": rows, "lam": lams, "kinds": kinds, "q": q, "q_kind": qk, "factor": factor, "index": idx,
                 "drop": rng.choice(COLS), "pad": rng.choice([1, 2, 3, 4]),
                 "frames": frames if frames is not None else rng.random() < 0.25,
@@ -408,32 +634,44 @@ class C17(Prop):
         return base, rot, sc
 
     def _evaluate(self, case):
-        """Real code on all three paths; cached per case (correspondence and oracle share it)."""
+        """Real code on all paths; cached per case (correspondence and oracle share it)."""
         key = id(case)
         hit = self._cache.get(key)
         if hit is not None and hit[0] is case:      # the case object is kept alive, so its id is not reused
             return hit[1]
-        base, rot, sc = self.tensors(case)
-        allrows = base + rot + sc
-        out = {"rows": allrows, "n": len(base)}
+        out = {"error": None, "notes": {}}
         try:
-            out["scalar"] = [call_scalar(r) for r in allrows]
-            cw, cv = call_column(allrows)
-            out["column"] = list(zip(cw, cv))
-            aw, av, problems = call_accessor(allrows, case["index"], case.get("colorder"))
-            out["accessor"] = list(zip(aw, av))
-            out["problems"] = problems
-            out["layouts"] = self._layouts(case, allrows, len(base), out)
-            out["error"] = None
-        except Exception as e:  # the real code raised on valid input
-            out["error"] = f"{type(e).__name__}: {e}"
+            if case.get("big"):
+                self._evaluate_big(case, out)
+            else:
+                self._evaluate_small(case, out)
+        except Exception as e:
+            if core._involves_implementation(e):    # the real code raised on valid input
+                out["error"] = (f"the implementation raised on valid input: {type(e).__name__}: {e}", "raises-on-valid-input")
+            elif core._harness_side(e):
+                raise
+            else:   # raised here while digesting what the implementation returned (changed shape / type / None)
+                out["error"] = (f"the implementation's result cannot be interpreted: {type(e).__name__}: {e}", "unexpected-result")
         if len(self._cache) > 50000:
             self._cache.clear()
         self._cache[key] = (case, out)
         return out
 
+    def _evaluate_small(self, case, out):
+        base, rot, sc = self.tensors(case)
+        allrows = base + rot + sc
+        out.update(rows=allrows, n=len(base))
+        out["scalar"] = [call_scalar(r) for r in allrows]
+        cw, cv = call_column(allrows)
+        out["column"] = list(zip(cw, cv))
+        aw, av, problems = call_accessor(allrows, case["index"], case.get("colorder"), out["notes"])
+        out["accessor"] = list(zip(aw, av))
+        out["problems"] = problems
+        out["layouts"] = self._layouts(case, allrows, len(base), out)
+        self._other_dtypes(case, allrows, out)
+
     def _layouts(self, case, allrows, n, out):
-        """The same tensors in other batch layouts: every result must be the number the tensor gets on its own.
+        """The same tensors in other batch layouts / input forms: every result must be the number the tensor gets on its own.
         -> [(label, tensor index or None for a zero padding row, row, w, vals)]"""
         lay = []
         # every tensor alone as a column of length 1 (one-element lists, the style of the repository's tests)
@@ -445,6 +683,10 @@ class C17(Prop):
             w, v = call_column(allrows[:m])
             for i in range(m):
                 lay.append((f"column of length {m} (first {m} tensors of the case)", i, allrows[i], w[i], v[i]))
+        # (n, 1) arrays
+        w, v = call_column_vectors(allrows)
+        for i, r in enumerate(allrows):
+            lay.append((f"arguments of shape ({len(allrows)}, 1)", i, r, w[i], v[i]))
         # a loaded row followed by / preceded by zero rows
         pad = int(case.get("pad", 2))
         zero = [0.0] * 6
@@ -458,23 +700,108 @@ class C17(Prop):
         # (pandas is slow: in a quarter of the random cases, for at most two rows)
         if not case.get("frames", True):
             return lay
+        # pandas Series as arguments, the usual call mises(df.S11, df.S22, ...)
+        w, v = call_series(allrows, case["index"])
+        for i, r in enumerate(allrows):
+            lay.append(("pandas Series arguments", i, r, w[i], v[i]))
         df = frame(allrows, case["index"], case.get("colorder") or CANONICAL)
         for i in sorted({0, pad % n}):
             one = df.iloc[[i]]
-            w, v, problems = accessor_values(one)
+            w, v, problems = accessor_values(one, out["notes"])
             out["problems"] = out["problems"] + [f"one-row frame df.iloc[[{i}]]: {p}" for p in problems]
             lay.append((f"accessor on the one-row frame df.iloc[[{i}]]", i, allrows[i], w[0], v[0]))
         # the padded layout through the accessor as well (first base row only)
-        w, v, problems = accessor_values(frame([allrows[0]] + [zero] * pad, case["index"], case.get("colorder") or CANONICAL))
+        w, v, problems = accessor_values(frame([allrows[0]] + [zero] * pad, case["index"], case.get("colorder") or CANONICAL),
+                                         out["notes"])
         out["problems"] = out["problems"] + [f"padded frame: {p}" for p in problems]
         for j in range(pad + 1):
             lay.append((f"accessor: frame with the tensor in row 0 followed by {pad} all-zero rows", 0 if j == 0 else None,
                         allrows[0] if j == 0 else zero, w[j], v[j]))
         return lay
 
+    def _other_dtypes(self, case, allrows, out):
+        """integer valued tensors as python ints / int64 columns / int64 frame; float32 frame.  These are compared with a
+        tolerance (integer arithmetic is exact where float arithmetic rounds, float32 is single precision), so they are not
+        fed to the bit-exact correspondence.  -> out['ints'] = [(label, i, values)], out['f32'] = (rows32, w, vals, plain)"""
+        E = eqs()
+        n = out["n"]
+        ints = []
+        idx = [i for i, r in enumerate(allrows) if is_integral(r)]
+        for i in idx:
+            if i < n:       # python int arguments (the style of the repository's own tests): base rows
+                ii = [int(x) for x in allrows[i]]
+                ints.append(("python int arguments", i, [_f(getattr(E, f)(*ii)) for f in FUNCS]))
+        if idx:
+            _w, v = call_int_columns([allrows[i] for i in idx])
+            ints += [("int64 ndarray arguments", i, v[k]) for k, i in enumerate(idx)]
+            if case.get("frames", True) and max(abs(x) for i in idx for x in allrows[i]) < 2.0 ** 62:
+                df = frame([allrows[i] for i in idx], case["index"], case.get("colorder") or CANONICAL, dtype=np.int64)
+                _w, v, problems = accessor_values(df, out["notes"])
+                out["problems"] = out["problems"] + [f"int64 frame: {p}" for p in problems]
+                ints += [("accessor on a frame with int64 Voigt columns", i, v[k]) for k, i in enumerate(idx)]
+        out["ints"] = ints
+        out["f32"] = None
+        if case.get("frames", True):
+            sel = [r for r in allrows if 1e-12 <= scale_of(r) <= 1e12]
+            if sel:
+                df = frame(sel, case["index"], case.get("colorder") or CANONICAL, dtype=np.float32)
+                w, v, problems = accessor_values(df, out["notes"])
+                out["problems"] = out["problems"] + [f"float32 frame: {p}" for p in problems]
+                rows32 = [[float(np.float32(x)) for x in r] for r in sel]
+                _pw, pv = call_with([np.array([r[i] for r in sel], dtype=np.float32) for i in range(6)], len(sel))
+                out["f32"] = (rows32, w, v, pv)
+
+    # ---- large batches
+    @staticmethod
+    def _sample(case, m, n):
+        """row numbers that go through the scalar path and the model: the ends, block boundaries, random ones"""
+        forced = {0, 1, n - 1, m - 1, m - 2, m - 3}
+        k = 64
+        while k < m:
+            forced |= {k - 1, k, k + 1}
+            k *= 2
+        for blk in (100, 1000, 10000):
+            forced |= {j for j in (blk - 1, blk, m - blk, m - blk - 1) if 0 <= j < m}
+        r = random.Random(case["big"]["seed"] + 1)
+        forced |= {r.randrange(m) for _ in range(30)}
+        forced |= {m - 1 - r.randrange(min(m, 256)) for _ in range(6)}     # the tail of the batch
+        return sorted(j for j in forced if 0 <= j < m)
+
+    def _evaluate_big(self, case, out):
+        b = case["big"]
+        n = int(b["n"])
+        base = big_rows(b["seed"], n)
+        a = np.vstack([base, rotate_all(base, case["q"]), case["factor"] * base]) if b.get("derived", True) else base
+        m = len(a)
+        E = eqs()
+        cols = [a[:, i].copy() for i in range(6)]
+        cw = np.asarray(E.principals(*cols), dtype=float)
+        if cw.shape != (m, 3):
+            raise ValueError(f"principals has shape {cw.shape} for columns of {m} rows")
+        cv = np.empty((m, len(FUNCS)))
+        for k, f in enumerate(FUNCS):
+            v = np.asarray(getattr(E, f)(*cols), dtype=float)
+            if v.shape != (m,):
+                raise ValueError(f"{f} has shape {v.shape} for columns of {m} rows")
+            cv[:, k] = v
+        aw, av, problems = accessor_arrays(frame(a, case["index"], case.get("colorder") or CANONICAL), out["notes"])
+        sample = self._sample(case, m, n)
+        if b.get("derived", True):      # a sampled base row brings its rotated and scaled image along
+            sample = sorted(set(sample) | {j % n + k * n for j in sample for k in range(3)})
+        out.update(big=True, a=a, n=n, m=m, cw=cw, cv=cv, aw=aw, av=av, problems=problems, sample=sample,
+                   scalar={j: call_scalar([float(x) for x in a[j]]) for j in sample})
+
     def _entries(self, ev):
         """(label, row, w, vals) of every evaluation of the case, in the order of the protocol lines"""
         ent = []
+        if ev.get("big"):
+            m = ev["m"]
+            for j in ev["sample"]:
+                row = [float(x) for x in ev["a"][j]]
+                ent.append((f"scalar path, row {j} of the batch of {m}", row) + tuple(ev["scalar"][j]))
+                ent.append((f"column path, row {j} of {m}", row, [float(x) for x in ev["cw"][j]], [float(x) for x in ev["cv"][j]]))
+                ent.append((f"accessor path, row {j} of {m}", row, [float(x) for x in ev["aw"][j]], [float(x) for x in ev["av"][j]]))
+            return ent
         for path in ("scalar", "column", "accessor"):
             for i, (row, (w, vals)) in enumerate(zip(ev["rows"], ev[path])):
                 ent.append((f"{path} path, tensor #{i}", row, w, vals))
@@ -486,13 +813,13 @@ class C17(Prop):
     def model_lines(self, case):
         ev = self._evaluate(case)
         if ev["error"]:
-            return ["equi " + " ".join(core.f2h(x) for x in ev["rows"][0] + [0.0, 0.0, 0.0])]
+            return ["equi " + " ".join(core.f2h(x) for x in [0.0] * 9)]
         return ["equi " + " ".join(core.f2h(x) for x in row + w) for _l, row, w, _v in self._entries(ev)]
 
     def impl_lines(self, case):
         ev = self._evaluate(case)
         if ev["error"]:
-            return ["error " + ev["error"]]
+            return ["error " + ev["error"][0]]
         return [" ".join(core.f2h(x) for x in vals) for _l, _row, _w, vals in self._entries(ev)]
 
     def compare(self, case, model_out, impl_out):
@@ -502,7 +829,7 @@ class C17(Prop):
         labels = [e[0] for e in self._entries(ev)] if not ev["error"] else []
         for i, (a, b) in enumerate(zip(model_out, impl_out)):
             if b.startswith("error"):
-                return f"implementation raised on valid input: {b}"
+                return f"implementation raised on valid input / returned something else than numbers per row: {b}"
             try:
                 m = [core.h2f(x) for x in a.split()]
                 p = [core.h2f(x) for x in b.split()]
@@ -519,41 +846,218 @@ class C17(Prop):
         return None
 
     def nontrivial(self, case, model_out):
+        if case.get("big"):
+            return json.dumps([case["big"], case["q"], case["factor"]], sort_keys=True)
         if all(x == 0 for r in case["rows"] for x in r):
             return None
         return json.dumps([case["rows"], case["q"], case["factor"]])
 
     # -------------------------------------------------------------- oracle
+    def _bump(self, key, sub):
+        d = self.stats.setdefault(key, {})
+        d[sub] = d.get(sub, 0) + 1
+
     def oracle(self, case):
         st = self.stats
         st["cases"] += 1
-        st["q_kind"][case.get("q_kind", "?")] = st["q_kind"].get(case.get("q_kind", "?"), 0) + 1
-        st["index_kind"][case["index"]] = st["index_kind"].get(case["index"], 0) + 1
-        fk = str(int(math.floor(math.log10(case["factor"]))))
-        st["factor_log10"][fk] = st["factor_log10"].get(fk, 0) + 1
+        self._bump("q_kind", case.get("q_kind", "?"))
+        self._bump("index_kind", case["index"])
+        self._bump("factor_log10", str(int(math.floor(math.log10(case["factor"])))))
         for k in case.get("kinds", []):
-            st["by_kind"][k] = st["by_kind"].get(k, 0) + 1
+            self._bump("by_kind", k)
 
         q = np.array(case["q"], dtype=float).reshape(3, 3)
         if np.max(np.abs(q.T @ q - np.eye(3))) > 1e-12:
-            raise RuntimeError("generator produced a non-orthogonal Q")   # infrastructure, not a verdict
+            raise RuntimeError("harness: generator produced a non-orthogonal Q")   # infrastructure, not a verdict
         ev = self._evaluate(case)
         if ev["error"]:
-            return (f"the implementation raised on valid input: {ev['error']}", "raises-on-valid-input")
+            return ev["error"]
+        for k, v in ev["notes"].items():
+            st["notes"][k] = st["notes"].get(k, 0) + v
+        ev["notes"].clear()
+        colorder = case.get("colorder") or CANONICAL
+        ck = ("canonical" if [c for c in colorder if c in COLS] == COLS else "permuted") + \
+            ("+extra" if len(colorder) > 6 else "")
+        self._bump("frame_column_layout", ck)
+        for p in ev["problems"]:
+            return (f"accessor: {p}", "accessor-glue")
+        res = self._oracle_big(case, ev) if ev.get("big") else self._oracle_small(case, ev)
+        if res is not None:
+            return res
+        self._reduced_frame(case, ev)
+        return None
+
+    def _reduced_frame(self, case, ev):
+        """What the accessor does with a frame that lacks a Voigt column is recorded, not judged: such a frame is not a
+        stress tensor, and the property says nothing about validation."""
+        rows = ev["a"][:3] if ev.get("big") else ev["rows"][:ev["n"]]
+        df = frame(rows, case["index"], case.get("colorder") or CANONICAL).drop(columns=[case.get("drop", "S23")])
+        try:
+            df.equistress
+            self._bump("reduced_frame", "accepted")
+        except Exception as e:
+            self._bump("reduced_frame", "refused:" + type(e).__name__)
+
+    # ---- (b) one tensor: finiteness, principal forms, inequalities, signs
+    def _tensor_clause(self, row, w, v, lam):
+        st = self.stats
+        val = dict(zip(FUNCS, v))
+        scale = scale_of(row)
+        tol = TOL * scale
+        e = int(math.floor(math.log10(scale))) if scale > 0 else None
+        mk = "zero" if e is None else (str(e) if -10 <= e < 10 else f"{10 * (e // 10)}..{10 * (e // 10) + 9}")
+        st["magnitude_log10"][mk] = st["magnitude_log10"].get(mk, 0) + 1
+        if scale > 0 and not (MAG_LO <= scale <= MAG_HI):
+            raise RuntimeError(f"harness: generator left the magnitude window: {scale!r}")
+        pm = principal_mises(lam)
+        m_ok = abs(sos_mises(row) - pm) <= tol
+        for f in FUNCS:
+            if not math.isfinite(val[f]):
+                klass = "mises-cancellation" if ("mises" in f and m_ok and is_cancellation(row, val["mises"])) \
+                    else "non-finite-result"
+                return (f"{f}{tuple(row)} = {val[f]!r} on a finite symmetric tensor", klass)
+        if not (w[0] <= w[1] <= w[2]) or max(abs(a - b) for a, b in zip(w, lam)) > tol:
+            return (f"principals{tuple(row)} = {w}, eigenvalues are {lam}", "eigenvalues-wrong")
+        if abs(val["mises"] - pm) > tol:
+            klass = "mises-cancellation" if m_ok and is_cancellation(row, val["mises"]) else "mises-wrong"
+            return (f"mises{tuple(row)} = {val['mises']!r}, principal form gives {pm!r} (tolerance {tol:.3g})", klass)
+        if abs(val["tresca"] - (lam[2] - lam[0])) > tol:
+            return (f"tresca{tuple(row)} = {val['tresca']!r}, w_max - w_min = {lam[2]-lam[0]!r}", "tresca-wrong")
+        if abs(val["max_principal"] - lam[2]) > tol or abs(val["min_principal"] - lam[0]) > tol:
+            return (f"max/min_principal{tuple(row)} = {val['max_principal']!r}/{val['min_principal']!r}, eigenvalues {lam}",
+                    "principal-wrong")
+        # absolute maximum principal: eigenvalue of largest magnitude with its sign
+        am = val["abs_max_principal"]
+        ind = lam[2] + lam[0]
+        window = SIGN_WINDOW * scale
+        if abs(ind) <= window:
+            st["absmax_indicator_in_sign_window"] += 1
+            ok = min(abs(am - lam[2]), abs(am - lam[0])) <= tol
+            if w[2] + w[0] == 0 and am != w[2]:
+                ok = False                                   # exact tie: the positive one (+1 for a zero indicator)
+        else:
+            ok = abs(am - (lam[2] if ind > 0 else lam[0])) <= tol
+            if ind < 0:
+                st["neg_absmax"] += 1
+        if not ok or abs(abs(am) - max(abs(x) for x in lam)) > tol:
+            return (f"abs_max_principal{tuple(row)} = {am!r}, eigenvalues {lam}", "absmax-wrong")
+        # inequalities
+        if val["mises"] > val["tresca"] * (1 + 1e-12) + tol or \
+                val["tresca"] > 2.0 / math.sqrt(3.0) * val["mises"] * (1 + 1e-12) + tol:
+            klass = "mises-cancellation" if m_ok and is_cancellation(row, val["mises"]) else "inequality-violated"
+            return (f"Mises <= Tresca <= 2/sqrt(3) Mises violated on {tuple(row)}: mises={val['mises']!r} tresca={val['tresca']!r}",
+                    klass)
+        # signed variants: magnitude exactly that of the unsigned one; documented sign
+        tr = row[0] + row[1] + row[2]
+        if tr < 0:
+            st["neg_trace"] += 1
+        if tr == 0:
+            st["zero_trace"] += 1
+        s_tr, sure = trace_sign(row)
+        if not sure:
+            st["trace_sign_decided_by_rounding"] += 1
+        for f, g in (("signed_mises_trace", "mises"), ("signed_tresca_trace", "tresca")):
+            if not same(val[f], s_tr * val[g]) and (sure or not same(val[f], -s_tr * val[g])):
+                return (f"{f}{tuple(row)} = {val[f]!r}, expected sign(trace={tr!r}; +1 at 0) x {g} = {s_tr * val[g]!r}",
+                        "signed-trace-wrong")
+        for f, g in (("signed_mises_abs_max_principal", "mises"), ("signed_tresca_abs_max_principal", "tresca")):
+            if abs(val[f]) != val[g]:
+                return (f"|{f}{tuple(row)}| = {abs(val[f])!r} differs from {g} = {val[g]!r}", "signed-absmax-wrong")
+            if abs(ind) > window and val[g] > 0 and (val[f] > 0) != (ind > 0):
+                return (f"{f}{tuple(row)} = {val[f]!r} has the wrong sign: eigenvalue of largest magnitude is "
+                        f"{lam[2] if ind > 0 else lam[0]!r}", "signed-absmax-wrong")
+            if w[2] + w[0] == 0 and val[f] != val[g]:
+                return (f"{f}{tuple(row)} = {val[f]!r}: a zero indicator must give +{g}", "signed-absmax-wrong")
+        return None
+
+    # ---- (c) rotation invariance / positive homogeneity of one tensor against its image
+    def _invariance_clause(self, what, fac, row_i, vals_i, row_j, vals_j, lam, q):
+        st = self.stats["sign_comparisons"]
+        base = dict(zip(FUNCS, vals_i))
+        other = dict(zip(FUNCS, vals_j))
+        scale = scale_of(row_i)
+        tol = TOL * scale
+        window = SIGN_WINDOW * scale
+        tr = row_i[0] + row_i[1] + row_i[2]
+        ind = lam[2] + lam[0]
+        for f in FUNCS:
+            a, b = fac * base[f], other[f]
+            # The sign of a signed variant is not determined on the tie set of its indicator (theorems *_determined_iff): the image
+            # handed to the code is a rounded neighbour of the exact image.  Within SIGN_WINDOW of the tie set magnitudes are compared.
+            if "trace" in f or "abs_max" in f:
+                if "trace" in f and abs(tr) <= window:
+                    a, b = abs(a), abs(b)
+                    st["magnitude_only_trace"] += 1
+                elif "abs_max" in f and abs(ind) <= window:
+                    a, b = abs(a), abs(b)
+                    st["magnitude_only_abs_max"] += 1
+                else:
+                    st["compared"] += 1
+            if not abs(a - b) <= fac * tol * 2:
+                canc = "mises" in f and (is_cancellation(row_i, base["mises"]) or is_cancellation(row_j, other["mises"]))
+                klass = "mises-cancellation" if canc else f"{what}-variant"
+                return (f"{f} is not invariant under {what}: {f}{tuple(row_i)} = {base[f]!r}"
+                        f"{'' if fac == 1.0 else f' (x {fac!r} = {a!r})'} but {f}{tuple(row_j)} = {other[f]!r}"
+                        f" [Q = {q}]" if what == "rotation" else
+                        f"{f} does not scale with the factor {fac!r}: {f}{tuple(row_i)} = {base[f]!r} "
+                        f"but {f}{tuple(row_j)} = {other[f]!r}", klass)
+        return None
+
+    # ---- integer valued input (python ints, int64 columns, int64 frames)
+    def _integer_clause(self, ev):
+        rows = ev["rows"]
+        for label, i, vi in ev.get("ints", []):
+            self._bump("input_forms", label)
+            row = rows[i]
+            exp = ev["scalar"][i][1]
+            exact = max(abs(x) for x in row) < 2.0 ** 20       # every intermediate is an exactly representable integer
+            tol = TOL * scale_of(row)
+            for k, f in enumerate(FUNCS):
+                if same(vi[k], exp[k]) or (not exact and abs(vi[k] - exp[k]) <= tol):
+                    continue
+                ints = tuple(int(x) for x in row)
+                desc = f"{f}{ints} = {vi[k]!r} with {label} but {exp[k]!r} with float arguments"
+                klass = "int-vs-float-arguments"
+                if "mises" in f:
+                    repro, wrapped = int64_mises(row)
+                    if wrapped and same(abs(vi[k]), repro):
+                        klass = "mises-int-overflow"
+                        desc += " (the squares / sums of the int64 components wrap around modulo 2**64)"
+                if not self.known(klass, desc):
+                    return (desc, klass)
+        return None
+
+    # ---- frames with float32 Voigt columns (single precision)
+    def _float32_clause(self, ev):
+        if not ev.get("f32"):
+            return None
+        self._bump("input_forms", "accessor on a frame with float32 Voigt columns")
+        rows32, w, v, pv = ev["f32"]
+        _cw, cv = call_column(rows32)
+        for i, row in enumerate(rows32):
+            tol = F32 * scale_of(row)
+            for k, f in enumerate(FUNCS):
+                got, plain, ref = v[i][k], pv[i][k], cv[i][k]
+                if "signed" in f or "abs_max" in f:     # single precision moves the tie set: magnitudes only
+                    got, plain, ref = abs(got), abs(plain), abs(ref)
+                if not abs(got - plain) <= tol:
+                    return (f"{f}: the accessor gives {v[i][k]!r} on a frame with float32 columns, the plain function with the same "
+                            f"float32 columns {pv[i][k]!r} (row {tuple(row)})", "accessor-differs")
+                if not abs(got - ref) <= tol:
+                    return (f"{f}: {v[i][k]!r} on a frame with float32 columns, {cv[i][k]!r} in double precision for the "
+                            f"same tensor {tuple(row)}", "float32-frame-wrong")
+        return None
+
+    def _oracle_small(self, case, ev):
+        st = self.stats
         n = ev["n"]
         rows = ev["rows"]
         st["tensors"] += len(rows)
         lams = case.get("lam") or [None] * n
         c = case["factor"]
-
-        # (a) scalar = column = accessor, row by row, bit for bit; index / names kept
-        for p in ev["problems"]:
-            return (f"accessor: {p}", "accessor-glue")
         colorder = case.get("colorder") or CANONICAL
-        ck = ("canonical" if [c for c in colorder if c in COLS] == COLS else "permuted") + \
-            ("+extra" if len(colorder) > 6 else "")
-        st.setdefault("frame_column_layout", {})
-        st["frame_column_layout"][ck] = st["frame_column_layout"].get(ck, 0) + 1
+
+        # (a) scalar = column = accessor, row by row, bit for bit
         named = lambda r: ", ".join(f"{c}={x!r}" for c, x in zip(COLS, r))
         for i in range(len(rows)):
             (ws, vs), (wc, vc), (wa, va) = ev["scalar"][i], ev["column"][i], ev["accessor"][i]
@@ -565,8 +1069,8 @@ class C17(Prop):
                 return (f"principals: plain function with scalars {ws}, with columns {wc}, but df.equistress.principals() gives "
                         f"{wa} in row {i} ({named(rows[i])}) of a frame whose columns are {colorder}", "accessor-differs")
 
-        # (a'') row by row: the number a tensor gets must not depend on the batch it is evaluated in - alone as a
-        # column of length 1, in columns of length 2 and 3, next to all-zero rows, as a one-row frame df.iloc[[i]]
+        # (a'') row by row: the number a tensor gets must not depend on the batch / the input form it is evaluated in - alone as a
+        # column of length 1, in columns of length 2 and 3, (n,1) arrays, Series, next to all-zero rows, as a one-row frame df.iloc[[i]]
         st["layout_evaluations"] = st.get("layout_evaluations", 0) + len(ev["layouts"])
         for label, i, row, w, v in ev["layouts"]:
             if i is None:
@@ -583,128 +1087,149 @@ class C17(Prop):
                             f"inside the full column of {len(rows)} rows: {ev['column'][i][1][k]!r}; "
                             f"inside the full frame: {ev['accessor'][i][1][k]!r}", "batch-dependent")
 
-        # (a') integer arguments (the style of the repository's own tests) give the same numbers as float arguments
-        E = eqs()
-        for i in range(n):
-            if all(x == int(x) and abs(x) < 1e6 for x in rows[i]):
-                st["integer_argument_checks"] = st.get("integer_argument_checks", 0) + 1
-                ints = [int(x) for x in rows[i]]
-                for k, f in enumerate(FUNCS):
-                    vi = _f(getattr(E, f)(*ints))
-                    if not same(vi, ev["scalar"][i][1][k]):
-                        return (f"{f}{tuple(ints)} = {vi!r} with int arguments but {ev['scalar'][i][1][k]!r} with float arguments",
-                                "int-vs-float-arguments")
+        # (a') integer valued arguments / columns, float32 frames
+        res = self._integer_clause(ev) or self._float32_clause(ev)
+        if res is not None:
+            return res
 
-        # (b) per tensor: finiteness, principal forms, inequalities, signs
+        # (b) per tensor
+        ref = []
         for i, row in enumerate(rows):
-            w, v = ev["scalar"][i]
-            val = dict(zip(FUNCS, v))
-            scale = scale_of(row)
-            tol = TOL * scale
-            mk = str(int(math.floor(math.log10(scale)))) if scale > 0 else "zero"
-            st["magnitude_log10"][mk] = st["magnitude_log10"].get(mk, 0) + 1
             if i < n:
                 lam = ref_eigs(row, lams[i])
             elif i < 2 * n:
                 lam = ref_eigs(row, lams[i - n])             # rotation keeps the eigenvalues
             else:
                 lam = ref_eigs(row, None if lams[i - 2 * n] is None else [c * x for x in lams[i - 2 * n]])
-            pm = principal_mises(lam)
-            m_ok = abs(sos_mises(row) - pm) <= tol
-            for f in FUNCS:
-                if not math.isfinite(val[f]):
-                    klass = "mises-cancellation" if ("mises" in f and m_ok and is_cancellation(row, val["mises"])) \
-                        else "non-finite-result"
-                    return (f"{f}{tuple(row)} = {val[f]!r} on a finite symmetric tensor", klass)
-            if not (w[0] <= w[1] <= w[2]) or max(abs(a - b) for a, b in zip(w, lam)) > tol:
-                return (f"principals{tuple(row)} = {w}, eigenvalues are {lam}", "eigenvalues-wrong")
-            if abs(val["mises"] - pm) > tol:
-                klass = "mises-cancellation" if m_ok and is_cancellation(row, val["mises"]) else "mises-wrong"
-                return (f"mises{tuple(row)} = {val['mises']!r}, principal form gives {pm!r} (tolerance {tol:.3g})", klass)
-            if abs(val["tresca"] - (lam[2] - lam[0])) > tol:
-                return (f"tresca{tuple(row)} = {val['tresca']!r}, w_max - w_min = {lam[2]-lam[0]!r}", "tresca-wrong")
-            if abs(val["max_principal"] - lam[2]) > tol or abs(val["min_principal"] - lam[0]) > tol:
-                return (f"max/min_principal{tuple(row)} = {val['max_principal']!r}/{val['min_principal']!r}, eigenvalues {lam}",
-                        "principal-wrong")
-            # absolute maximum principal: eigenvalue of largest magnitude with its sign
-            am = val["abs_max_principal"]
-            ind = lam[2] + lam[0]
-            if abs(ind) <= 2 * tol:
-                st["zero_absmax_indicator"] += 1
-                ok = min(abs(am - lam[2]), abs(am - lam[0])) <= tol
-                if ind == 0 and w[2] + w[0] == 0 and am != w[2]:
-                    ok = False                                   # exact tie: the positive one (+1 for a zero indicator)
-            else:
-                ok = abs(am - (lam[2] if ind > 0 else lam[0])) <= tol
-                if ind < 0:
-                    st["neg_absmax"] += 1
-            if not ok or abs(abs(am) - max(abs(x) for x in lam)) > tol:
-                return (f"abs_max_principal{tuple(row)} = {am!r}, eigenvalues {lam}", "absmax-wrong")
-            # inequalities
-            if val["mises"] > val["tresca"] * (1 + 1e-12) + tol or \
-                    val["tresca"] > 2.0 / math.sqrt(3.0) * val["mises"] * (1 + 1e-12) + tol:
-                klass = "mises-cancellation" if m_ok and is_cancellation(row, val["mises"]) else "inequality-violated"
-                return (f"Mises <= Tresca <= 2/sqrt(3) Mises violated on {tuple(row)}: mises={val['mises']!r} tresca={val['tresca']!r}",
-                        klass)
-            # signed variants: magnitude exactly that of the unsigned one; documented sign
-            tr = row[0] + row[1] + row[2]
-            if tr < 0:
-                st["neg_trace"] += 1
-            if tr == 0:
-                st["zero_trace"] += 1
-            s_tr = 1.0 if tr >= 0 else -1.0
-            for f, g in (("signed_mises_trace", "mises"), ("signed_tresca_trace", "tresca")):
-                if not same(val[f], s_tr * val[g]):
-                    return (f"{f}{tuple(row)} = {val[f]!r}, expected sign(trace={tr!r}; +1 at 0) x {g} = {s_tr * val[g]!r}",
-                            "signed-trace-wrong")
-            for f, g in (("signed_mises_abs_max_principal", "mises"), ("signed_tresca_abs_max_principal", "tresca")):
-                if abs(val[f]) != val[g]:
-                    return (f"|{f}{tuple(row)}| = {abs(val[f])!r} differs from {g} = {val[g]!r}", "signed-absmax-wrong")
-                if abs(ind) > 2 * tol and val[g] > 0 and (val[f] > 0) != (ind > 0):
-                    return (f"{f}{tuple(row)} = {val[f]!r} has the wrong sign: eigenvalue of largest magnitude is "
-                            f"{lam[2] if ind > 0 else lam[0]!r}", "signed-absmax-wrong")
-                if ind == 0 and w[2] + w[0] == 0 and val[f] != val[g]:
-                    return (f"{f}{tuple(row)} = {val[f]!r}: a zero indicator must give +{g}", "signed-absmax-wrong")
+            ref.append(lam)
+            res = self._tensor_clause(row, ev["scalar"][i][0], ev["scalar"][i][1], lam)
+            if res is not None:
+                return res
 
         # (c) rotation invariance and positive homogeneity against the base tensor
         for i in range(n):
-            base = dict(zip(FUNCS, ev["scalar"][i][1]))
-            scale = scale_of(rows[i])
-            tol = TOL * scale
-            lam = ref_eigs(rows[i], lams[i])
-            tr = rows[i][0] + rows[i][1] + rows[i][2]
-            ind = lam[2] + lam[0]
             for what, j, fac in (("rotation", n + i, 1.0), ("scaling", 2 * n + i, c)):
-                other = dict(zip(FUNCS, ev["scalar"][j][1]))
-                for f in FUNCS:
-                    a, b = fac * base[f], other[f]
-                    # a sign indicator within rounding of zero may flip when the tensor is rotated / scaled in floating
-                    # point (the computed eigenvalues carry rounding noise): compare magnitudes then
-                    if ("trace" in f and abs(tr) <= 3 * tol) or ("abs_max" in f and abs(ind) <= 3 * tol):
-                        a, b = abs(a), abs(b)
-                    if abs(a - b) > fac * tol * 2:
-                        canc = "mises" in f and (is_cancellation(rows[i], base["mises"]) or
-                                                 is_cancellation(rows[j], other["mises"]))
-                        klass = "mises-cancellation" if canc else f"{what}-variant"
-                        return (f"{f} is not invariant under {what}: {f}{tuple(rows[i])} = {base[f]!r}"
-                                f"{'' if fac == 1.0 else f' (x {fac!r} = {a!r})'} but {f}{tuple(rows[j])} = {other[f]!r}"
-                                f" [Q = {case['q']}]" if what == "rotation" else
-                                f"{f} does not scale with the factor {fac!r}: {f}{tuple(rows[i])} = {base[f]!r} "
-                                f"but {f}{tuple(rows[j])} = {other[f]!r}", klass)
+                res = self._invariance_clause(what, fac, rows[i], ev["scalar"][i][1], rows[j], ev["scalar"][j][1], ref[i], case["q"])
+                if res is not None:
+                    return res
+        return None
 
-        # (d) the accessor validates its columns
-        st["missing_column_checks"] += 1
-        df = frame(rows[:n], case["index"], case.get("colorder") or CANONICAL).drop(columns=[case["drop"]])
-        try:
-            df.equistress
-            return (f"df.equistress accepted a frame without column {case['drop']}", "accessor-glue")
-        except AttributeError:
-            pass
+    def _oracle_big(self, case, ev):
+        """A large batch: column and accessor path on ALL rows against vectorised relations and independent eigenvalues;
+        the sampled rows additionally through the scalar path and the complete per-tensor clauses."""
+        st = self.stats
+        a, n, m, cw, cv, aw, av = ev["a"], ev["n"], ev["m"], ev["cw"], ev["cv"], ev["aw"], ev["av"]
+        self._bump("big_batches", str(n) + ("x3" if m == 3 * n else ""))
+        st["big_rows"] += m
+        st["max_batch_rows"] = max(st["max_batch_rows"], m)
+        rowt = lambda j: tuple(float(x) for x in a[j])
+
+        def alone(j, k=None):
+            w, v = call_scalar([float(x) for x in a[j]])
+            return w if k is None else v[k]
+
+        def first(mask):
+            return int(np.argmax(mask))
+
+        # accessor = column, every row
+        bad = ~vsame(av, cv)
+        if bad.any():
+            j = first(bad.any(axis=1))
+            k = first(bad[j])
+            return (f"{FUNCS[k]}: row {j} of {m} ({rowt(j)}): plain function with columns {cv[j, k]!r}, df.equistress.{FUNCS[k]}() "
+                    f"{av[j, k]!r}, the tensor alone {alone(j, k)!r}", "accessor-differs")
+        bad = ~vsame(aw, cw)
+        if bad.any():
+            j = first(bad.any(axis=1))
+            return (f"principals: row {j} of {m} ({rowt(j)}): plain function with columns {list(cw[j])}, accessor {list(aw[j])}, "
+                    f"the tensor alone {alone(j)}", "accessor-differs")
+        # the sampled rows alone = inside the batch
+        for j in ev["sample"]:
+            ws, vs = ev["scalar"][j]
+            if not all(same(x, float(y)) for x, y in zip(ws, cw[j])):
+                return (f"principals of the tensor {rowt(j)} depend on the batch: alone {ws}; as row {j} of a column of {m} rows "
+                        f"{[float(x) for x in cw[j]]}", "batch-dependent")
+            for k, f in enumerate(FUNCS):
+                if not same(vs[k], float(cv[j, k])):
+                    return (f"{f} of the tensor {rowt(j)} depends on the batch: alone {vs[k]!r}; as row {j} of a column of {m} "
+                            f"rows {float(cv[j, k])!r}", "batch-dependent")
+        # every row: independent eigenvalues (general solver on the stack) and the vectorised relations
+        scale = np.abs(a).max(axis=1)
+        tol = TOL * scale
+        ref = np.sort(np.linalg.eigvals(mats(a)).real, axis=1)
+        val = {f: cv[:, k] for k, f in enumerate(FUNCS)}
+        sos = np.sqrt(0.5 * ((a[:, 0] - a[:, 1]) ** 2 + (a[:, 1] - a[:, 2]) ** 2 + (a[:, 2] - a[:, 0]) ** 2)
+                      + 3.0 * (a[:, 3] ** 2 + a[:, 4] ** 2 + a[:, 5] ** 2))
+        ind = ref[:, 2] + ref[:, 0]
+        decided = np.abs(ind) > SIGN_WINDOW * scale
+        expect_am = np.where(ind > 0, ref[:, 2], ref[:, 0])
+        trv = a[:, 0] + a[:, 1] + a[:, 2]
+        tr_clear = np.abs(trv) > 8 * EPS * np.abs(a[:, :3]).max(axis=1)
+        checks = [
+            ("non-finite-result", "a non-finite value", ~(np.isfinite(cv).all(axis=1) & np.isfinite(cw).all(axis=1))),
+            ("eigenvalues-wrong", "principals not ascending / not the eigenvalues",
+             ~((cw[:, 0] <= cw[:, 1]) & (cw[:, 1] <= cw[:, 2]) & (np.abs(cw - ref).max(axis=1) <= tol))),
+            ("mises-wrong", "mises differs from the sum-of-squares form", ~(np.abs(val["mises"] - sos) <= tol)),
+            ("tresca-wrong", "tresca differs from w_max - w_min", ~(np.abs(val["tresca"] - (ref[:, 2] - ref[:, 0])) <= tol)),
+            ("principal-wrong", "max/min_principal differ from the extreme eigenvalues",
+             ~((np.abs(val["max_principal"] - ref[:, 2]) <= tol) & (np.abs(val["min_principal"] - ref[:, 0]) <= tol))),
+            ("absmax-wrong", "abs_max_principal is not the eigenvalue of largest magnitude with its sign",
+             ~((np.abs(np.abs(val["abs_max_principal"]) - np.maximum(np.abs(ref[:, 0]), np.abs(ref[:, 2]))) <= tol)
+               & (~decided | (np.abs(val["abs_max_principal"] - expect_am) <= tol)))),
+            ("signed-trace-wrong", "|signed_*_trace| differs from the unsigned value / sign is not that of the trace",
+             ~((np.abs(val["signed_mises_trace"]) == val["mises"]) & (np.abs(val["signed_tresca_trace"]) == val["tresca"])
+               & (~tr_clear | (val["tresca"] <= 0) | ((val["signed_tresca_trace"] > 0) == (trv > 0)))
+               & (~tr_clear | (val["mises"] <= 0) | ((val["signed_mises_trace"] > 0) == (trv > 0))))),
+            ("signed-absmax-wrong", "|signed_*_abs_max_principal| differs from the unsigned value / wrong sign",
+             ~((np.abs(val["signed_mises_abs_max_principal"]) == val["mises"])
+               & (np.abs(val["signed_tresca_abs_max_principal"]) == val["tresca"])
+               & (~decided | (val["tresca"] <= 0) | ((val["signed_tresca_abs_max_principal"] > 0) == (ind > 0))))),
+            ("inequality-violated", "Mises <= Tresca <= 2/sqrt(3) Mises violated",
+             ~((val["mises"] <= val["tresca"] * (1 + 1e-12) + tol)
+               & (val["tresca"] <= 2.0 / math.sqrt(3.0) * val["mises"] * (1 + 1e-12) + tol))),
+        ]
+        for klass, what, bad in checks:
+            if bad.any():
+                j = first(bad)
+                return (f"{what}: row {j} of a column of {m} rows, tensor {rowt(j)}: principals {list(cw[j])}, "
+                        f"{dict(zip(FUNCS, (float(x) for x in cv[j])))}; eigenvalues {list(ref[j])}; the same tensor evaluated alone: "
+                        f"principals {alone(j)}, {dict(zip(FUNCS, call_scalar([float(x) for x in a[j]])[1]))}", klass)
+        # the sampled rows: the complete per-tensor clauses, rotation / scaling against the image
+        st["tensors"] += len(ev["sample"])
+        for j in ev["sample"]:
+            res = self._tensor_clause([float(x) for x in a[j]], [float(x) for x in cw[j]], [float(x) for x in cv[j]],
+                                      [float(x) for x in ref[j]])
+            if res is not None:
+                return (f"row {j} of a column of {m} rows: " + res[0], res[1])
+        if m == 3 * n:
+            for i in (j for j in ev["sample"] if j < n):
+                for what, j, fac in (("rotation", n + i, 1.0), ("scaling", 2 * n + i, case["factor"])):
+                    res = self._invariance_clause(what, fac, [float(x) for x in a[i]], [float(x) for x in cv[i]],
+                                                  [float(x) for x in a[j]], [float(x) for x in cv[j]],
+                                                  [float(x) for x in ref[i]], case["q"])
+                    if res is not None:
+                        return res
         return None
 
     # -------------------------------------------------------------- shrinking
     def shrink(self, case, still_fails):
         cur = case
+        if cur.get("big"):
+            for n2 in (257, 300, 600, 1000, 3000, 10000):
+                if n2 < cur["big"]["n"]:
+                    c2 = dict(cur, big=dict(cur["big"], n=n2))
+                    if still_fails(c2):
+                        cur = c2
+                        break
+            if cur["big"].get("derived", True):
+                c2 = dict(cur, big=dict(cur["big"], derived=False))
+                if still_fails(c2):
+                    cur = c2
+            for patch in ({"index": "range"}, {"colorder": list(COLS)}):
+                c2 = dict(cur, **patch)
+                if still_fails(c2):
+                    cur = c2
+            return cur
         # single row
         if len(cur["rows"]) > 1:
             for i in range(len(cur["rows"])):
